@@ -18,28 +18,36 @@ package pac
 // (package-level constant value, assigned only by the initialiser)
 //@ globalinv noProxy.Mode == 0
 
-// parseMode: the keyword table; anything unrecognised means DIRECT.
+// parseMode: the keyword table; 0 (DIRECT) for anything that is not a proxy keyword -
+// parseProxy rejects such an entry.
 //@ define modeOf(s string) int = ite(s == "PROXY", 1, ite(s == "HTTP", 2, ite(s == "HTTPS", 3, ite(s == "SOCKS", 4, ite(s == "SOCKS4", 5, ite(s == "SOCKS5", 6, 0))))))
 //@ func parseMode
 //@ property C05 C14
 //@ pure
 //@ ensures result == modeOf(s)
 
-// parseProxy: blank or DIRECT is direct; otherwise "<keyword> <host>:<port>" -
-// a missing or unparsable host:port is an error, never a silent fallback.
+// parseProxy: blank or DIRECT is direct; otherwise "<keyword> <host>:<port>"
+// with one of the six proxy keywords, a host:port that splits and a port that
+// is a number below 65536 - anything else is an error, never a silent fallback
+// to DIRECT (which would send the request past the proxy the script chose).
+//@ ghost fn uintOK(string, int, int) bool
+//@ func strconv.ParseUint as (s string, base int, bitSize int) (result uint64, err error)
+//@ trusted
+//@ pure
+//@ ensures (err == nil) == uintOK(s, base, bitSize)
+//@ define wellFormed(t string) bool = cutFound(t, " ") && modeOf(cutBefore(t, " ")) != 0 && splitOK(cutAfter(t, " ")) && uintOK(splitPort(cutAfter(t, " ")), 10, 16)
 //@ func parseProxy
 //@ property C05 C14
 //@ pure
 //@ ensures trimSpace(s) == "" || trimSpace(s) == "DIRECT" ==> result1 == nil && result0.Mode == 0
-//@ ensures trimSpace(s) != "" && trimSpace(s) != "DIRECT" && !cutFound(trimSpace(s), " ") ==> result1 != nil
-//@ ensures trimSpace(s) != "" && trimSpace(s) != "DIRECT" && cutFound(trimSpace(s), " ") && !splitOK(cutAfter(trimSpace(s), " ")) ==> result1 != nil
-//@ ensures trimSpace(s) != "" && trimSpace(s) != "DIRECT" && cutFound(trimSpace(s), " ") && splitOK(cutAfter(trimSpace(s), " ")) ==> result1 == nil && result0.Mode == modeOf(cutBefore(trimSpace(s), " ")) && result0.Host == splitHost(cutAfter(trimSpace(s), " ")) && result0.Port == splitPort(cutAfter(trimSpace(s), " "))
+//@ ensures trimSpace(s) != "" && trimSpace(s) != "DIRECT" && !wellFormed(trimSpace(s)) ==> result1 != nil
+//@ ensures trimSpace(s) != "" && trimSpace(s) != "DIRECT" && wellFormed(trimSpace(s)) ==> result1 == nil && result0.Mode == modeOf(cutBefore(trimSpace(s), " ")) && result0.Mode != 0 && result0.Host == splitHost(cutAfter(trimSpace(s), " ")) && result0.Port == splitPort(cutAfter(trimSpace(s), " "))
 //@ ensures result1 != nil ==> result0.Mode == 0
 
 // The first entry of a result string, as spec functions of the string.
 //@ define firstSpec(s string) string = trimSpace(cutBefore(s, ";"))
 //@ define firstDirect(s string) bool = s == "" || firstSpec(s) == "" || firstSpec(s) == "DIRECT"
-//@ define firstOK(s string) bool = cutFound(firstSpec(s), " ") && splitOK(cutAfter(firstSpec(s), " "))
+//@ define firstOK(s string) bool = wellFormed(firstSpec(s))
 //@ define firstMode(s string) int = modeOf(cutBefore(firstSpec(s), " "))
 //@ define firstHostPort(s string) string = joinHP(splitHost(cutAfter(firstSpec(s), " ")), splitPort(cutAfter(firstSpec(s), " ")))
 
@@ -48,9 +56,9 @@ package pac
 //@ property C05 C14
 //@ pure
 //@ ensures s == "" ==> result1 == nil && result0.Mode == 0
-//@ ensures s != "" && trimSpace(cutBefore(s, ";")) != "" && trimSpace(cutBefore(s, ";")) != "DIRECT" && cutFound(trimSpace(cutBefore(s, ";")), " ") && splitOK(cutAfter(trimSpace(cutBefore(s, ";")), " ")) ==> result1 == nil && result0.Mode == modeOf(cutBefore(trimSpace(cutBefore(s, ";")), " ")) && result0.Host == splitHost(cutAfter(trimSpace(cutBefore(s, ";")), " ")) && result0.Port == splitPort(cutAfter(trimSpace(cutBefore(s, ";")), " "))
+//@ ensures s != "" && trimSpace(cutBefore(s, ";")) != "" && trimSpace(cutBefore(s, ";")) != "DIRECT" && wellFormed(trimSpace(cutBefore(s, ";"))) ==> result1 == nil && result0.Mode != 0 && result0.Mode == modeOf(cutBefore(trimSpace(cutBefore(s, ";")), " ")) && result0.Host == splitHost(cutAfter(trimSpace(cutBefore(s, ";")), " ")) && result0.Port == splitPort(cutAfter(trimSpace(cutBefore(s, ";")), " "))
 //@ ensures s != "" && (trimSpace(cutBefore(s, ";")) == "" || trimSpace(cutBefore(s, ";")) == "DIRECT") ==> result1 == nil && result0.Mode == 0
-//@ ensures s != "" && trimSpace(cutBefore(s, ";")) != "" && trimSpace(cutBefore(s, ";")) != "DIRECT" && !(cutFound(trimSpace(cutBefore(s, ";")), " ") && splitOK(cutAfter(trimSpace(cutBefore(s, ";")), " "))) ==> result1 != nil
+//@ ensures s != "" && trimSpace(cutBefore(s, ";")) != "" && trimSpace(cutBefore(s, ";")) != "DIRECT" && !wellFormed(trimSpace(cutBefore(s, ";"))) ==> result1 != nil
 //@ ensures result1 != nil ==> result0.Mode == 0
 
 // URL: nil for DIRECT; PROXY and HTTP give an http proxy URL, the other modes
@@ -68,7 +76,7 @@ package pac
 
 // One entry of a result list, as spec functions of its text.
 //@ define entDirect(e string) bool = trimSpace(e) == "" || trimSpace(e) == "DIRECT"
-//@ define entOK(e string) bool = cutFound(trimSpace(e), " ") && splitOK(cutAfter(trimSpace(e), " "))
+//@ define entOK(e string) bool = wellFormed(trimSpace(e))
 //@ define entMode(e string) int = ite(entDirect(e), 0, modeOf(cutBefore(trimSpace(e), " ")))
 
 // All: every entry of the list, in order; any malformed entry rejects the list.
